@@ -22,7 +22,7 @@ RULE = ("case = multi-script repertoire (1-3 of Latn/Cyrl/Grek/Arab/Hebr/Deva/Hi
         "(disjoint public.kern1/2 partitions; glyph-glyph, glyph-group, group-glyph, group-group "
         "keys with deliberate exceptions incl. zero; fractional/negative values; keys naming "
         "missing / non-exported glyphs and unknown groups) x categories on/off x languagesystems "
-        "none/some/all x quantization {1,5} (5 %: three same-direction scripts whose kerning script sets overlap only pairwise, in an order that needs repeated merging) x {KernFeatureWriter, legacy kernFeatureWriter2}; "
+        "none/some/all x quantization {1,2,5,10} with kerning values on exact half-step ties of both parities and signs (5 %: three same-direction scripts whose kerning script sets overlap only pairwise, in an order that needs repeated merging) x {KernFeatureWriter, legacy kernFeatureWriter2}; "
         "every ordered glyph pair (<= 30 glyphs) is evaluated under every script tag of the "
         "ScriptList; distinct = sha1 of the case; non-trivial = GPOS compiled and >= 1 non-zero "
         "judged pair")
@@ -68,7 +68,10 @@ def gen_kerning(rng, names, skip):
             k += 1
     g1 = [g for g in groups if g.startswith("public.kern1.")]
     g2 = [g for g in groups if g.startswith("public.kern2.")]
-    val = lambda: rng.choice([-80, -50, -25, -12.5, -7, 10, 15.5, 30, 42, 60, -3, 2.4])  # noqa: E731
+    # (x.5 values on both parities and both signs: exact ties of the rounding to the step, at
+    # step 1 as well as 2 / 5 / 10)
+    val = lambda: rng.choice([-80, -50, -25, -12.5, -7, 10, 15.5, 30, 42, 60, -3, 2.4,  # noqa: E731
+                              2.5, -1.5, 0.5, 12.5, -7.5, 25, 45, -15, 5, 22.5, -2.5, 1])
     kern = {}
     n_pairs = rng.randint(2, 14)
     for _ in range(n_pairs):
@@ -290,7 +293,7 @@ def gen(rng, idx, tier):
                     "lib": lib, "info": {"unitsPerEm": 1000, "familyName": "T", "styleName": "R"}},
             "rules": rules, "lib": rng.choice(["defcon", "ufoLib2"]),
             "writer": writer,
-            "quantization": rng.choice([1, 1, 5]), "skip": skip}
+            "quantization": rng.choice([1, 1, 5, 2, 10]), "skip": skip}
 
 
 def sample_view(case):
@@ -402,6 +405,8 @@ def run(case):
                 sb = {_unify(s) for s in scr[b]}
                 exp_v, lvl, key = rk.lookup(a, b)
                 exp = quantize(exp_v, q)
+                if exp_v and (R.fr(exp_v) / q) % 1 == R.fr(0.5):
+                    bump("half_step_tie_values_judged")
                 res = gp.pair(a, b, tag) if not no_gpos else ZERO
                 in_a = (not sa) or bool(sa & tscripts)
                 in_b = (not sb) or bool(sb & tscripts)
